@@ -2830,6 +2830,10 @@ void MessageMap::invalidateCache(Message* message) {
 void MessageMap::addPollMessage(bool toFront, Message* message) {
   if (message != nullptr && message->getPollPriority() > 0) {
     lock();
+    if (message->m_pollOrder < g_lastPollOrder) {
+      // a message that joins later starts at the position polling has reached instead of catching up from the start
+      message->m_pollOrder = g_lastPollOrder;
+    }
     message->m_lastPollTime = toFront ? 0 : m_pollMessages.size();
     m_pollMessages.push(message);
     unlock();
